@@ -44,6 +44,13 @@ impl Obs {
             Obs::Skipped => "Skipped".into(),
         }
     }
+    /// rendering for messages: without the raw port id, which differs from run to run
+    pub fn show(&self) -> String {
+        match self {
+            Obs::Data { bytes, elems, hdr_elems, aligned, .. } => format!("Data {{ bytes: {bytes:?}, elems: {elems}, hdr_elems: {hdr_elems}, aligned: {aligned} }}"),
+            other => format!("{other:?}"),
+        }
+    }
     pub fn is_err(&self) -> bool {
         matches!(self, Obs::Err { .. })
     }
@@ -66,6 +73,9 @@ pub fn agree(a: &Obs, b: &Obs) -> bool {
         _ => a == b,
     }
 }
+
+/// `defaults.*.expired_connection_buffer` of both worlds' configs
+pub const EXPIRED_CONNECTIONS: usize = 4;
 
 #[derive(Clone, Copy, Debug, PartialEq, Eq, Hash, serde::Serialize, serde::Deserialize)]
 pub enum SvcType {
@@ -163,6 +173,7 @@ pub struct RrCfg {
     pub max_borrowed_responses: usize,
     pub max_loaned_responses: usize,
     pub max_slice_len: usize,
+    pub fire_and_forget: bool,
 }
 
 pub trait ClientPort {
